@@ -154,6 +154,7 @@ def run(ctx):
             "real_epoll_runs_ending_in_a_burst_over_64_key_events": summary.get("final_write_over_64_keys", 0),
             "real_epoll_tablet_on_runs": summary.get("tablet_cases", 0),
             "real_epoll_no_progress_deadlines": summary.get("deadlines", 0),
+            "real_epoll_output_records_with_nonzero_time_field(ignored)": summary.get("nonzero_time_records", 0),
             "disagreements_checked": len(diffs),
             "real_poll_adapter_probes": len(probes),
             "realloop_generator": gen_line,
